@@ -39,7 +39,11 @@ class ScriptSock(Native):
     def sendall(self, b, *flags):
         self.sent.append(b)
 
-    send = sendall
+    def send(self, b, *flags):
+        # a plain send() may accept only part of the buffer (short write): the model accepts at most 5 bytes per call
+        part = bytes(b[:5])
+        self.sent.append(part)
+        return len(part)
 
     def close(self):
         self.closed = True
